@@ -628,6 +628,25 @@ def call_container_method(I: Interp, recv: SV, name: str, args, kwargs, fr: Fram
                 st.assume(x >= 0)
                 return SV(smt.mk_str(x), T.STR)
             return st.fresh_val("str_" + name, T.STR)
+        if name == "join" and args and isinstance(args[0], SV) and T.strip_opt(args[0].ty).k in ("list", "dict", "set") and not st.spec_depth:
+            # str.join raises TypeError unless every item is a string
+            a0 = args[0]
+            r0 = smt.rid(a0.t)
+            jq = z3.Int(f"j!join{st.n_fresh}")
+            st.n_fresh += 1
+            if T.strip_opt(a0.ty).k == "list":
+                n0, el = z3.Select(st.arr("llen"), r0), z3.Select(z3.Select(st.arr("lel"), r0), jq)
+            else:
+                I.assume_dict_wf(a0)
+                n0, el = z3.Select(st.arr("dsz"), r0), z3.Select(z3.Select(st.arr("dkeys"), r0), jq)
+            K_ = st.cfg.get("ground")
+            if K_:
+                st.assume(n0 <= K_)
+                goal = z3.And(*[z3.Implies(z3.IntVal(x_) < n0, smt.is_str(z3.substitute(el, (jq, z3.IntVal(x_))))) for x_ in range(K_)])
+            else:
+                goal = z3.ForAll([jq], z3.Implies(z3.And(jq >= 0, jq < n0), smt.is_str(el)))
+            st.oblige("safety", "join_of_non_strings", goal, line)
+            return st.fresh_val("str_join", T.STR)
         if name in ("format", "join", "replace", "zfill", "rjust", "ljust"):
             return st.fresh_val("str_" + name, T.STR)
         if name in ("startswith", "endswith", "isdigit", "isnumeric"):
